@@ -281,6 +281,107 @@ Proof.
     rewrite (IH f Hok Hl2) by lia. reflexivity.
 Qed.
 
+(* ---------- a value that is not a valid string: crypto/x509 refuses the name ---------- *)
+Lemma x509_atvs_prefix : forall l fuel tail, forallb atv_ok l = true ->
+  len_ok (length (rdn_body l ++ tail)) = true -> (length (rdn_body l ++ tail) <= fuel)%nat ->
+  exists fuel', (length tail <= fuel')%nat /\
+    x509_atvs fuel (rdn_body l ++ tail) =
+    match x509_atvs fuel' tail with Some rest => Some (map x509_atv l ++ rest) | None => None end.
+Proof.
+  unfold rdn_body. induction l as [|a l IH]; intros fuel tail Hok Hl Hf.
+  - exists fuel. split; [exact Hf|]. cbn [flat_map map app]. destruct (x509_atvs fuel tail); reflexivity.
+  - cbn [forallb] in Hok. apply andb_true_iff in Hok as [Ha Hok]. cbn [flat_map] in *.
+    rewrite <- app_assoc in *.
+    unfold atv_ok in Ha. apply andb_true_iff in Ha as [Ho Hs].
+    destruct (str_ok_tag_facts _ Hs) as (Ht & _).
+    unfold atv_enc in Hl at 1. unfold atv_enc in Hf at 1. unfold atv_enc at 1. unfold atv_body in *.
+    assert (Hl1 : len_ok (length (PV.enc_oid (fst a))) = true) by lenok.
+    assert (Hl2 : len_ok (length (snd (snd a))) = true) by lenok.
+    assert (Hl3 : len_ok (length (tlv_enc 6 (PV.enc_oid (fst a)) ++ tlv_enc (fst (snd a)) (snd (snd a)))) = true) by lenok.
+    assert (Hl4 : len_ok (length (flat_map atv_enc l ++ tail)) = true) by lenok.
+    rewrite app_length in Hf.
+    pose proof (tlv_enc_length_pos 48 (tlv_enc 6 (PV.enc_oid (fst a)) ++ tlv_enc (fst (snd a)) (snd (snd a)))) as Hp.
+    destruct fuel as [|f]; [exfalso; lia|].
+    destruct (IH f tail Hok Hl4) as (fuel' & Hf' & E); [lia|].
+    exists fuel'. split; [exact Hf'|].
+    rewrite x509_atvs_S by (apply tlv_enc_not_nil; reflexivity).
+    rewrite cb_read_enc; [|reflexivity|exact Hl3].
+    rewrite cb_read_enc; [|reflexivity|exact Hl1].
+    rewrite cb_oid_enc by exact Ho.
+    rewrite <- (app_nil_r (tlv_enc (fst (snd a)) (snd (snd a)))).
+    rewrite cb_any_enc; [|exact Ht|exact Hl2].
+    rewrite str_ok_value by exact Hs.
+    rewrite E. destruct (x509_atvs fuel' tail); reflexivity.
+Qed.
+
+(* an AttributeTypeAndValue whose value (identifier octet t, content c) is not a valid string of the six types *)
+Definition bad_atv (o : oid) (t : N) (c extra : bytes) : bytes :=
+  tlv_enc 48 (tlv_enc 6 (PV.enc_oid o) ++ tlv_enc t c ++ extra).
+
+Lemma x509_atvs_bad : forall o t c extra tail fuel, oid_cb_ok o = true -> tag_ok t = true -> string_value t c = None ->
+  len_ok (length (bad_atv o t c extra ++ tail)) = true -> (length (bad_atv o t c extra ++ tail) <= fuel)%nat ->
+  x509_atvs fuel (bad_atv o t c extra ++ tail) = None.
+Proof.
+  intros o t c extra tail fuel Ho Ht Hv Hl Hf. unfold bad_atv in *.
+  assert (Hl1 : len_ok (length (PV.enc_oid o)) = true) by lenok.
+  assert (Hl2 : len_ok (length c) = true) by lenok.
+  assert (Hl3 : len_ok (length (tlv_enc 6 (PV.enc_oid o) ++ tlv_enc t c ++ extra)) = true) by lenok.
+  rewrite app_length in Hf.
+  pose proof (tlv_enc_length_pos 48 (tlv_enc 6 (PV.enc_oid o) ++ tlv_enc t c ++ extra)) as Hp.
+  destruct fuel as [|f]; [exfalso; lia|].
+  rewrite x509_atvs_S by (apply tlv_enc_not_nil; reflexivity).
+  rewrite cb_read_enc; [|reflexivity|exact Hl3].
+  rewrite cb_read_enc; [|reflexivity|exact Hl1].
+  rewrite cb_oid_enc by exact Ho.
+  rewrite cb_any_enc; [|exact Ht|exact Hl2].
+  rewrite Hv. reflexivity.
+Qed.
+
+Lemma x509_rdns_prefix : forall n fuel tail, forallb (forallb atv_ok) n = true ->
+  len_ok (length (name_content n ++ tail)) = true -> (length (name_content n ++ tail) <= fuel)%nat ->
+  exists fuel', (length tail <= fuel')%nat /\
+    x509_rdns fuel (name_content n ++ tail) =
+    match x509_rdns fuel' tail with Some rest => Some (map (map x509_atv) n ++ rest) | None => None end.
+Proof.
+  unfold name_content. induction n as [|r n IH]; intros fuel tail Hok Hl Hf.
+  - exists fuel. split; [exact Hf|]. cbn [flat_map map app]. destruct (x509_rdns fuel tail); reflexivity.
+  - cbn [forallb] in Hok. apply andb_true_iff in Hok as [Hr Hok]. cbn [flat_map] in *.
+    rewrite <- app_assoc in *.
+    unfold rdn_enc in Hl at 1. unfold rdn_enc in Hf at 1. unfold rdn_enc at 1.
+    assert (Hl1 : len_ok (length (rdn_body r)) = true) by lenok.
+    assert (Hl2 : len_ok (length (flat_map rdn_enc n ++ tail)) = true) by lenok.
+    rewrite app_length in Hf. pose proof (tlv_enc_length_pos 49 (rdn_body r)) as Hp.
+    destruct fuel as [|f]; [exfalso; lia|].
+    destruct (IH f tail Hok Hl2) as (fuel' & Hf' & E); [lia|].
+    exists fuel'. split; [exact Hf'|].
+    rewrite x509_rdns_S by (apply tlv_enc_not_nil; reflexivity).
+    rewrite cb_read_enc; [|reflexivity|exact Hl1].
+    rewrite (x509_atvs_enc r _ Hr Hl1 (le_n _)).
+    rewrite E. destruct (x509_rdns fuel' tail); reflexivity.
+Qed.
+
+(* wherever it stands - after any well-formed RDNs, after any well-formed attributes of its own RDN, whatever
+   follows it - such a value makes crypto/x509 refuse the name, hence the certificate: no text is shown *)
+Theorem name_bad_value_refused : forall (pre : aname) (r : list aatv) o t c extra after_atv after_rdn,
+  forallb (forallb atv_ok) pre = true -> forallb atv_ok r = true ->
+  oid_cb_ok o = true -> tag_ok t = true -> string_value t c = None ->
+  let content := name_content pre ++ tlv_enc 49 (rdn_body r ++ bad_atv o t c extra ++ after_atv) ++ after_rdn in
+  len_ok (length content) = true ->
+  name_text content = None.
+Proof.
+  intros pre r o t c extra after_atv after_rdn Hpre Hr Ho Ht Hv content Hl. subst content.
+  unfold name_text, x509_parse_name.
+  destruct (x509_rdns_prefix pre _ _ Hpre Hl (le_n _)) as (fuel' & Hf' & E). rewrite E. clear E.
+  assert (Hl1 : len_ok (length (rdn_body r ++ bad_atv o t c extra ++ after_atv)) = true) by lenok.
+  rewrite app_length in Hf'.
+  pose proof (tlv_enc_length_pos 49 (rdn_body r ++ bad_atv o t c extra ++ after_atv)) as Hp.
+  destruct fuel' as [|f]; [exfalso; lia|].
+  rewrite x509_rdns_S by (apply tlv_enc_not_nil; reflexivity).
+  rewrite cb_read_enc; [|reflexivity|exact Hl1].
+  destruct (x509_atvs_prefix r _ _ Hr Hl1 (le_n _)) as (f2 & Hf2 & E2). rewrite E2.
+  rewrite x509_atvs_bad; [reflexivity|exact Ho|exact Ht|exact Hv|lenok|exact Hf2].
+Qed.
+
 (* ================================================================== *)
 (* D. encoding/asn1 (parseRawDN) reads the written name                *)
 (* ================================================================== *)
@@ -571,3 +672,15 @@ Proof.
   unfold der_ok_but_names. repeat split; try (vm_compute; reflexivity); try discriminate; try (vm_compute; lia);
     try (cbn; lia); try (vm_compute; intuition congruence).
 Qed.
+
+(* values crypto/x509 refuses: an INTEGER, a GeneralString, a PrintableString holding '@', a UTF8String that is
+   not UTF-8, a BMPString of odd length, a constructed UTF8String - each after a well-formed RDN and attribute *)
+Definition ex_bad_values : list (N * bytes) :=
+  [(2, [5]); (27, bs "x"); (19, bs "a@b"); (12, [255]); (30, [0]); (44, bs "x"); (4, bs "x"); (22, [200])].
+Example ex_bad_values_refused :
+  forallb (fun tc =>
+    tag_ok (fst tc) && match string_value (fst tc) (snd tc) with None => true | Some _ => false end &&
+    match name_text (name_content [[([2; 5; 4; 6], (19, bs "US"))]] ++
+                     tlv_enc 49 (rdn_body [([2; 5; 4; 10], (12, bs "o"))] ++ bad_atv [2; 5; 4; 3] (fst tc) (snd tc) [] ++ []) ++ [])
+    with None => true | Some _ => false end) ex_bad_values = true.
+Proof. vm_compute. reflexivity. Qed.
